@@ -85,6 +85,7 @@ known("C20","event semantic-after br* missing-beside-extra-firing-of-another-bra
       {"program":"[Block [Block [BrTable A [0,1] 0], BrIf A 0]]","plan":"semantic-after on the outer block, the br_table and the br_if","input":"(2,0): br_table -> inner block (fires, flag stays), br_if taken -> outer end: the br_table's body fires again, the br_if's body does not"})
 known("C16","invalid-instrumented-module else found outside of an `if` block [*semantic-after@br*","the C20 finding seen from C16 (an instrumented module must validate and behave like the original): three or more flagged semantic-after bodies resolved at one end are chained as if/else/else and the module does not validate; a br_table contributes one body per target, so two probed br_tables suffice",
       {"program":"[Block [BrTable A [0] 1], ... BrTable ...] (two br_tables whose targets meet at one end)","plan":"semantic-after on both br_tables"})
+fixed("C12","4823cf8","panic ir/function.rs:assertion*","FunctionBuilder::finish_component panicked on its own consistency assertion whenever an import had been added to that module through the API before: it counted imports.num_funcs_added on top of imports.num_funcs, which already includes them (finish_module asserts the sum without it); witness: component wrapping an empty module, add_import_func, then a built function finished with finish_component(comp, 0)")
 known("C22","silently-lost semantic-after on br->fn-label via *","a semantic-after injection on an unconditional br whose only target is the function body label is accepted by every API path and absent from the encoded function (same cause as the C20 finding: its body is scheduled after the final end, where after-code is dropped)",
       {"program":"[Block [...], If B [Br 1]] (br to the function label)","mode":"semantic-after","api":"any of the 9 paths"})
 
